@@ -828,6 +828,7 @@ def make_shims(world):
         "jax.typing": jax.typing,
         "equinox": eqx,
         "functools": functools,
+        "dataclasses": NS("dataclasses", dataclass=_dataclass, field=lambda **kw: _Field(kw)),
         "itertools": itertools,
         "math": math,
         "numbers": NS("numbers", Real=DType("Real", ("float32", "float64", "pyfloat")), Number=DType("Number", ("float32", "float64", "pyfloat"))),
@@ -944,6 +945,17 @@ class _UfuncMultiply(object):
 class _Field(object):
     def __init__(self, kw):
         self.kw = kw
+
+
+def _dataclass(cls=None, **options):
+    """dataclasses.dataclass: the class gets the constructor generated from its annotated fields (as for equinox
+    modules); comparison / repr helpers are not modelled."""
+
+    def mark(c):
+        c.dataclass_init = True
+        return c
+
+    return mark if cls is None else mark(cls)
 
 
 class EqxModuleBase(object):
@@ -1110,8 +1122,11 @@ def _conv_perms(dn, nd):
     return getperm(lhs_spec, "NC", False), getperm(rhs_spec, "OI", True), getperm(out_spec, "NC", False)
 
 
-def _norm_padding(padding, nsp, in_sizes, k_eff, strides):
+def _norm_padding(padding, nsp, in_sizes, k_eff, strides, lhs_dilation=None):
     if isinstance(padding, str):
+        if lhs_dilation is not None and any(d != 1 for d in lhs_dilation):
+            # jax.lax: "String padding is not implemented for transposed convolution using this op"
+            raise AbstractError("string padding %r together with lhs_dilation %r is rejected by jax.lax.conv_general_dilated" % (padding, tuple(lhs_dilation)))
         p = padding.upper()
         if p == "VALID":
             return [(0, 0)] * nsp
@@ -1175,7 +1190,7 @@ def conv_general_dilated(W, lhs, rhs, window_strides, padding, lhs_dilation=None
     ksp = Rt.shape[2:]
     dil_in = [0 if n == 0 else (n - 1) * d + 1 for n, d in zip(insp, ld)]
     k_eff = [0 if k == 0 else (k - 1) * d + 1 for k, d in zip(ksp, rd)]
-    pads = _norm_padding(padding, nsp, dil_in, k_eff, strides)
+    pads = _norm_padding(padding, nsp, dil_in, k_eff, strides, ld)
     padded = [n + lo + hi for n, (lo, hi) in zip(dil_in, pads)]
     outsp = []
     for p, k, s in zip(padded, k_eff, strides):
@@ -1272,7 +1287,7 @@ def conv_general_dilated_patches(W, lhs, filter_shape, window_strides, padding, 
     insp = Lt.shape[2:]
     dil_in = [0 if n == 0 else (n - 1) * d + 1 for n, d in zip(insp, ld)]
     k_eff = [0 if k == 0 else (k - 1) * d + 1 for k, d in zip(fs, rd)]
-    pads = _norm_padding(padding, nsp, dil_in, k_eff, strides)
+    pads = _norm_padding(padding, nsp, dil_in, k_eff, strides, ld)
     padded = [n + lo + hi for n, (lo, hi) in zip(dil_in, pads)]
     outsp = [0 if p - k < 0 else (p - k) // s + 1 for p, k, s in zip(padded, k_eff, strides)]
     K = prod(fs)
